@@ -20,7 +20,7 @@ CHECKS = {
         "DESIGN.md §5 C03", "Trusted base: per-payment model, T1-T6; liveness is checked after faults stop (settle + liquidation), never while they flow.",
         "seeded schedule and crash search, exactly-once / truthfulness oracles over the event history"),
     "C04": ("lnsim", "exploration",
-        "Recipient-side oracles over the same simulated worlds: PaymentClaimable only for complete, registered payments with a claim window; preimage leaves the node only after claim_funds; PaymentClaimed truthful; claimed value owned on chain after liquidation.",
+        "Recipient-side oracles over the simulated worlds, with sender-side flaws (wrong, reused or expired payment secret, under-payment, incomplete multi-part payment) and final-CLTV / claim-height boundaries: PaymentClaimable only for complete, authentic, registered payments with a claim window; preimage leaves the node only after claim_funds; PaymentClaimed truthful and all-or-nothing; claimed value owned on chain after liquidation.",
         "DESIGN.md §5 C04", "Trusted base: payment registry of the harness, T1-T6.",
         "seeded schedule search, recipient event/wire oracles"),
     "C05": ("lnsim", "exploration",
@@ -28,7 +28,7 @@ CHECKS = {
         "DESIGN.md §5 C05", "Trusted base: the automaton, the signer wrapper (delegates to LDK's TestChannelSigner), T1-T6.",
         "seeded schedule and crash search, safety automaton at the signer seam"),
     "C06": ("lnsim", "exploration",
-        "A cheating node confirms archived revoked commitments (any number in the history, with seeded subsets of its second-stage HTLC transactions); the victim's real ChannelMonitor must broadcast consensus-valid justice transactions, re-issue them until buried, and end owning the full channel value less fees, also across monitor reloads and delivery styles.",
+        "A cheating node gets one of its archived revoked commitments mined (any age in the history, with seeded subsets of its second-stage HTLC transactions, after quiescence or in the middle of the traffic); the victim's real ChannelMonitor must broadcast consensus-valid justice transactions, re-issue them under confirmation delays, fee moves and shallow reorganisations until buried, and end owning every non-anchor output of the revoked commitment, also across monitor reloads.",
         "DESIGN.md §5 C06", "Trusted base: chain model (libbitcoinconsensus script verification), T1-T5; the cheater is harness code using LDK's test-only accessor for old commitment transactions.",
         "seeded history/fault search with a Byzantine peer, conservation oracle"),
     "C07": ("lnsim", "exploration",
@@ -147,7 +147,7 @@ def main():
              "kind_free_text": "seeded PRNG, multi-process runner, ddmin trace shrinker, replay confirmation, evidence writer, known-findings matcher"},
         ],
         "checks": checks,
-        "notes": "See DESIGN.md. Every check rebuilds the simulators against /repo's working tree with --cfg ldk_verif. Hooks are not add-only: four cfg attribute lines were edited (two in util/hash_tables.rs by d85b81c, two in ln/mod.rs by 9310919; with the guard off they evaluate exactly as before); everything else is added code. Genuine defects found are in known_findings.json (three repaired by 'fix:' commits 556a3e8, 6653b1e, 88559a8).",
+        "notes": "See DESIGN.md. Every check rebuilds the simulators against /repo's working tree with --cfg ldk_verif. Hooks are not add-only: four cfg attribute lines were edited (two in util/hash_tables.rs by d85b81c, two in ln/mod.rs by 9310919; with the guard off they evaluate exactly as before); everything else is added code. Genuine defects found are in known_findings.json (six repaired by 'fix:' commits 556a3e8, 6653b1e, 88559a8, 47414f7, 22b471b, a275ace; the others are listed there and printed as KNOWN-FINDING).",
         "not_applicable": na,
     }
     json.dump(m, open(os.path.join(V, "MANIFEST.json"), "w"), indent=1, ensure_ascii=False)
